@@ -656,7 +656,7 @@ PROPS["C06"] = {
                    "position for n=500..520 (pre-test + partition path) and other shapes, all permutations of <=6 keys, all 3-valued sequences of length <=6.",
     "rule": VTBB_RULE,
     "legs": [
-        leg("reduce-scan-nested", "c06_reduce", (3, 4), {"nested": 1}, flags=(), what="same; in addition every body may re-enter the dispatcher on its own worker (a nested wait inside the body takes the worker's own not yet stolen sibling task, mail, or steals)", weight=2.0),
+        leg("reduce-scan-nested", "c06_reduce", (2, 3), {"nested": 1}, flags=(), what="same; in addition every body may re-enter the dispatcher on its own worker (a nested wait inside the body takes the worker's own not yet stolen sibling task, mail, or steals)", weight=2.0),
         leg("reduce-scan", "c06_reduce", (3, 4), {}, flags=(), what="parallel_reduce (2 forms), parallel_deterministic_reduce, parallel_scan (2 forms)", weight=2.0),
         leg("sort", "c06_sort", (2, 3), {}, flags=(), what="parallel_sort: 29025 inputs around the 500-element cutoff and exhaustive small inputs", weight=3.0),
         leg("rt-reduce", "c03_rt", (2, 3), {"kind": "reduce_body", "mask": 0}, flags=("-fp",), what="real scheduler: parallel_reduce over 4 elements (no fault), completes with every body exactly once"),
